@@ -189,6 +189,12 @@ def main(tier: str) -> int:
             for payload in r.printed("TR"):
                 a, b = json.loads(payload)
                 mtr.add(canon(a) + " -> " + canon(b))
+        # the walk on real objects costs ~150 us per transition (deep copies): above the budget the size is closed on the model only
+        budget = 400_000 if tier == "quick" else 3_000_000
+        if r.generated > budget:
+            table[f"{rule}/{size}"] = {"model_states": r.distinct, "model_transitions": r.generated - 1, "real_states": None,
+                                       "note": "closed by TLC on the model only (real-object walk over budget); long random histories cover this size"}
+            continue
         n_states, n_trans, rtr, failures, _, complete = real_graph(size, rule, max_states=2_000_000, want_transitions=dump)
         real_transitions += n_trans
         for f in failures:
